@@ -46,3 +46,178 @@ pub fn record_generators() {
 pub fn load(name: &str) -> Option<Value> {
     serde_json::from_str(&std::fs::read_to_string(format!("{}/{}", DIR, name)).ok()?).ok()
 }
+
+// ---------------------------------------------------------------------------------------
+// C18 proof fixtures
+
+use crate::drive_ref::{ref_prove, ref_verify};
+use crate::mirror::ProofMirror;
+use crate::program::{Cap, Op, Program, Sc, Var};
+use crate::scalars::ScalarSpec;
+use merlin::instr::Event;
+
+pub const FX_N1: [usize; 6] = [0, 1, 2, 3, 5, 8];
+pub const FX_N2: [usize; 4] = [0, 1, 3, 6];
+
+/// The fixture statements. FROZEN: the recorded fixtures refer to these builders by index;
+/// changing this function invalidates /verif/fixtures/proofs_*.json.
+pub fn fx18_program(curve: Curve, idx: usize) -> Program {
+    let n1 = FX_N1[idx % 6];
+    let n2 = FX_N2[(idx / 6) % 4];
+    let m = idx % 4;
+    let mut ops = vec![];
+    for j in 0..m {
+        ops.push(Op::Commit { v: ScalarSpec::Small(10 + j as u64 + idx as u64), blind: ScalarSpec::Rand(700 + (idx * 4 + j) as u64) });
+    }
+    if idx % 2 == 1 {
+        ops.push(Op::TData { label: (idx % 4) as u8, bytes: vec![idx as u8, 1, 2] });
+    }
+    let mut made = 0;
+    let mut i = 0u64;
+    while made < n1 {
+        i += 1;
+        match (i + idx as u64) % 3 {
+            0 => {
+                ops.push(Op::Alloc { val: Sc::C(ScalarSpec::Small(i + 2)) });
+                ops.push(Op::Alloc { val: Sc::C(ScalarSpec::Rand(i)) });
+            }
+            1 => ops.push(Op::AllocMul { l: Sc::C(ScalarSpec::NegSmall(i)), r: Sc::C(ScalarSpec::Pow2(70 + i as u32)) }),
+            _ => {
+                let left = if m > 0 { vec![(Var::Com(0), Sc::C(ScalarSpec::One)), (Var::One, Sc::C(ScalarSpec::Small(3)))] } else { vec![(Var::One, Sc::C(ScalarSpec::Small(4)))] };
+                let right = if made > 0 { vec![(Var::L(made - 1), Sc::C(ScalarSpec::Small(2)))] } else { vec![(Var::One, Sc::C(ScalarSpec::MinusOne))] };
+                ops.push(Op::Mul { left, right });
+            }
+        }
+        made += 1;
+    }
+    if m > 0 {
+        let mut lc: Vec<(Var, Sc)> = (0..m).map(|j| (Var::Com(j), Sc::C(ScalarSpec::Small(1 + j as u64)))).collect();
+        if n1 > 0 {
+            lc.push((Var::L(0), Sc::C(ScalarSpec::Half)));
+        }
+        ops.push(Op::Constrain { lc, err: None, base: None });
+    }
+    if n1 > 1 {
+        ops.push(Op::Constrain { lc: vec![(Var::L(n1 - 1), Sc::C(ScalarSpec::One)), (Var::L(0), Sc::C(ScalarSpec::InvSmall(3)))], err: None, base: None });
+    }
+    ops.push(Op::Constrain { lc: vec![(Var::One, Sc::C(ScalarSpec::Small(5)))], err: None, base: None });
+    if n2 > 0 || idx % 3 == 0 {
+        let mut body = vec![];
+        if n2 > 0 || idx % 2 == 0 {
+            body.push(Op::Challenge { label: (idx % 3) as u8 });
+        }
+        if idx % 5 == 0 {
+            body.push(Op::TData { label: 1, bytes: vec![9, idx as u8] });
+        }
+        for j in 0..n2 {
+            if j % 2 == 0 {
+                body.push(Op::AllocMul { l: Sc::MulReg(ScalarSpec::One, 0), r: Sc::C(ScalarSpec::Small(2 + j as u64)) });
+            } else {
+                body.push(Op::Mul { left: vec![(Var::L(n1 + j - 1), Sc::C(ScalarSpec::One))], right: vec![(Var::One, Sc::AddReg(ScalarSpec::Small(1), 0))] });
+            }
+        }
+        if n2 > 0 {
+            let mut lc = vec![(Var::O(n1), Sc::MulReg(ScalarSpec::Small(2), 0))];
+            if m > 0 {
+                lc.push((Var::Com(m - 1), Sc::AddReg(ScalarSpec::One, 0)));
+            }
+            body.push(Op::Constrain { lc, err: None, base: None });
+        }
+        ops.push(Op::Closure(body));
+    }
+    Program { curve, tlabel: (idx % 3) as u8, pre: if idx % 4 == 2 { vec![(0, vec![7, 7])] } else { vec![] }, ops, owned: false, cap_p: Cap::Exact, cap_v: Cap::Exact, party_cap: 1, seed: 1800 + idx as u64 }
+}
+
+pub const FX_COUNT: usize = 24;
+
+/// the three recorded wrong statements (index 0..3); None if not applicable to this fixture
+pub fn fx18_wrong(prog: &Program, commitments: &[Vec<u8>], which: usize, bump: &dyn Fn(&[u8]) -> Vec<u8>) -> Option<(Program, Vec<Vec<u8>>, &'static str)> {
+    let mut p = prog.clone();
+    let mut c = commitments.to_vec();
+    match which {
+        0 => {
+            if c.is_empty() {
+                return None;
+            }
+            c[0] = bump(&c[0]);
+            Some((p, c, "commitment[0] + B"))
+        }
+        1 => {
+            p.ops.push(Op::Constrain { lc: vec![], err: Some(ScalarSpec::One), base: None });
+            Some((p, c, "violated constant constraint added"))
+        }
+        _ => {
+            p.tlabel = (p.tlabel + 1) % 3;
+            Some((p, c, "transcript label changed"))
+        }
+    }
+}
+
+/// normalised transcript log: main-transcript operations, then challenges drawn from forks
+pub fn normalise_log(log: &[Event], main_id: u64) -> Vec<Value> {
+    let mut v = vec![];
+    for e in log {
+        match e {
+            Event::Append { id, label, msg } if *id == main_id => v.push(json!(["append", String::from_utf8_lossy(label), hex::encode(msg)])),
+            Event::Challenge { id, label, out } if *id == main_id && label != b"verif-next" => v.push(json!(["challenge", String::from_utf8_lossy(label), hex::encode(out)])),
+            Event::Challenge { id, label, out } if *id != main_id => v.push(json!(["fork-challenge", String::from_utf8_lossy(label), hex::encode(out)])),
+            _ => {}
+        }
+    }
+    v
+}
+
+fn bump_commitment<G: CurveTag>(b: &[u8]) -> Vec<u8> {
+    use ark_ec::CurveGroup;
+    use ark_serialize::CanonicalDeserialize;
+    let p = <G as CanonicalDeserialize>::deserialize_compressed(b).expect("commitment decodes");
+    crate::refgens::enc(&(p.into_group() + G::generator().into_group()).into_affine())
+}
+
+fn record_proofs<G: CurveTag>() -> Value {
+    let mut out = vec![];
+    for idx in 0..FX_COUNT {
+        let prog = fx18_program(G::CURVE, idx);
+        let need = prog.shape().padded();
+        let (proof, coms) = ref_prove::<G>(&prog, need).expect("reference prover");
+        let v = ref_verify::<G>(&prog, &coms, &proof, need, true);
+        assert!(v.accepted, "reference verifier accepts its own proof (fixture {})", idx);
+        let mut wrong = vec![];
+        for w in 0..3 {
+            if let Some((wp, wc, name)) = fx18_wrong(&prog, &coms, w, &|b| bump_commitment::<G>(b)) {
+                let r = ref_verify::<G>(&wp, &wc, &proof, wp.shape().padded().max(need), false);
+                if !r.accepted {
+                    wrong.push(json!({"which": w, "what": name, "reference_verdict": r.verdict}));
+                }
+            }
+        }
+        let m = ProofMirror::<G>::from_bytes(&proof).expect("mirror decodes reference proof");
+        let mut fields = serde_json::Map::new();
+        for (i, n) in crate::mirror::POINT_NAMES.iter().enumerate() {
+            fields.insert(n.to_string(), json!(hex::encode(crate::refgens::enc(&m.points()[i]))));
+        }
+        for (i, n) in crate::mirror::SCALAR_NAMES.iter().enumerate() {
+            fields.insert(n.to_string(), json!(hex::encode(crate::drive_ref::enc(&m.scalars()[i]))));
+        }
+        fields.insert("L".into(), json!(m.ipp.L.iter().map(|p| hex::encode(crate::refgens::enc(p))).collect::<Vec<_>>()));
+        fields.insert("R".into(), json!(m.ipp.R.iter().map(|p| hex::encode(crate::refgens::enc(p))).collect::<Vec<_>>()));
+        out.push(json!({
+            "index": idx,
+            "statement": prog.to_json(),
+            "commitments": coms.iter().map(hex::encode).collect::<Vec<_>>(),
+            "proof": hex::encode(&proof),
+            "fields": fields,
+            "wrong_statements_rejected_by_reference": wrong,
+            "verifier_transcript": normalise_log(&v.log, v.main_id),
+        }));
+    }
+    Value::Array(out)
+}
+
+pub fn record_all() {
+    record_generators();
+    for c in Curve::ALL {
+        let v = with_curve!(c, G => record_proofs::<G>());
+        std::fs::write(format!("{}/proofs_{}.json", DIR, c.name()), serde_json::to_string(&v).unwrap()).unwrap();
+    }
+}
